@@ -28,6 +28,9 @@ func (c08) Generate(c *Ctx) []any {
 	for i := 0; i < n; i++ {
 		g := &treeGen{r: c.Rng, pSet: []float64{0.15, 0.35, 0.6}[i%3]}
 		t := g.tree()
+		if i%8 == 7 {
+			t = g.recTree()
+		}
 		// sources: environment and flags for some cases
 		if i%4 == 1 {
 			for _, k := range []string{"dir", "formatter", "all", "force-file-write", "structname", "template", "log-level"} {
@@ -266,6 +269,20 @@ func (c08) Run(c *Ctx, raw json.RawMessage) Case {
 	pkgsOut := map[string]any{}
 	multi := false
 	note(c08Check("top level", cfgJSON(&rc.Config, cfgPath), nil, rootEff))
+	// recursive roots of the tree (explicitly configured with recursive: true)
+	underRecursive := func(path string) (string, bool) {
+		best := ""
+		for _, q := range t.Packages {
+			if v, ok := q.Config["recursive"].(bool); ok && v && q.Path != path && strings.HasPrefix(path, q.Path+"/") && len(q.Path) > len(best) {
+				best = q.Path
+			}
+		}
+		return best, best != ""
+	}
+	listed := map[string]bool{}
+	for _, p := range t.Packages {
+		listed[p.Path] = true
+	}
 	for _, p := range t.Packages {
 		pc := rc.Packages[p.Path]
 		if pc == nil {
@@ -273,7 +290,12 @@ func (c08) Run(c *Ctx, raw json.RawMessage) Case {
 			continue
 		}
 		po := map[string]any{"config": cfgJSON(pc.Config, cfgPath)}
-		note(c08Check("package "+p.Path, cfgJSON(pc.Config, cfgPath), []CfgMap{p.Config}, rootEff))
+		_, relaxed := underRecursive(p.Path)
+		if !relaxed {
+			note(c08Check("package "+p.Path, cfgJSON(pc.Config, cfgPath), []CfgMap{p.Config}, rootEff))
+		}
+		// (an explicitly listed sub-package of a recursive package additionally inherits, for whatever it and the
+		// top level leave unset, from the recursive package: not judged by the oracle, compared with the model only)
 		io := map[string]any{}
 		for _, i := range p.Interfaces {
 			ic := pc.Interfaces[i.Name]
@@ -329,11 +351,38 @@ func (c08) Run(c *Ctx, raw json.RawMessage) Case {
 				pcfg = p.Config
 			}
 		}
+		if _, relaxed := underRecursive(q.Pkg); relaxed {
+			continue
+		}
 		if len(ic.Configs) == 1 {
 			note(c08Check(q.Pkg+"."+q.Iface+" (not listed)", cfgJSON(ic.Configs[0], cfgPath), []CfgMap{pcfg}, rootEff))
 		} else {
 			note(fmt.Sprintf("%s.%s: %d entries for an interface that is not listed", q.Pkg, q.Iface, len(ic.Configs)))
 		}
+	}
+	// discovered sub-packages: as if configured with the settings of the recursive package
+	if len(t.Dirs) > 0 {
+		for path, pc := range rc.Packages {
+			if listed[path] {
+				continue
+			}
+			parent, ok := underRecursive(path)
+			if !ok {
+				note(fmt.Sprintf("package %s was added although no recursive package contains it", path))
+				continue
+			}
+			var pcfg CfgMap
+			for _, p := range t.Packages {
+				if p.Path == parent {
+					pcfg = p.Config
+				}
+			}
+			pkgsOut[path] = map[string]any{"config": cfgJSON(pc.Config, cfgPath), "interfaces": map[string]any{}}
+			if _, nested := underRecursive(parent); !nested {
+				note(c08Check("discovered package "+path, cfgJSON(pc.Config, cfgPath), []CfgMap{pcfg}, rootEff))
+			}
+		}
+		tags = append(tags, "recursive")
 	}
 	// leak check: resolving must not have changed the top level (aliasing between levels)
 	note(c08Check("top level after resolution", cfgJSON(&rc.Config, cfgPath), nil, rootEff))
